@@ -362,8 +362,8 @@ class Machine:
                 y = self.mk_t(self.shape_for(seed + 1, d=1), seed + 1)
             operands = [x, y]
             res = (x ** y) if name == "kron" else T.kron(x, y)
-            if p % 5 == 0:
-                res = T.kron(x, None) if name == "kron_fn" else x ** None
+            if p % 3 == 0:
+                res = (T.kron(x, None) if p % 2 else T.kron(None, x)) if name == "kron_fn" else x ** None
         elif name in ("matvec", "vecmat", "matmat", "mat_dense", "fast_matvec", "fast_matvec_init", "amen_mv", "amen_mv_init",
                       "amen_mm", "amen_mm_init", "bilinear"):
             A = need_m(a, realp if name not in ("matvec", "vecmat", "matmat", "mat_dense", "fast_matvec", "fast_matvec_init") else (lambda o: True))
